@@ -102,6 +102,11 @@ type World struct {
 func DefaultConf() *config.Configuration {
 	c := config.VerifDefaultConfig()
 
+	// Every world has a proxy transport of its own whose idle connections to the echo upstream stay open for
+	// timeout.idle (2 minutes by default). Hundreds of thousands of worlds per run would run out of file descriptors,
+	// so the harness lets idle connections go quickly (this only changes how long an unused connection is kept).
+	c.Serve.Proxy.Timeout.Idle = 200 * time.Millisecond
+
 	return &c
 }
 
